@@ -351,7 +351,7 @@ pub fn emit_recv(recvs: &[Recv], r: &Recv, out: &mut String) {
         Shape::Newtype(t) => {
             let nf = r.newtype_field();
             let fattr = nf.as_ref().map(|f| field_attr(recvs, &r.id.to_string(), f, r.id)).unwrap_or_default();
-            out.push_str(&format!("pub struct {name}({fattr}pub {});\n", rust_ty(recvs, t)));
+            out.push_str(&format!("pub struct {name}({fattr}pub {});\n", nf.as_ref().map(|f| field_full_ty(recvs, f)).unwrap_or_else(|| rust_ty(recvs, t))));
             if let Some(f) = &nf {
                 field_helpers(recvs, &r.id.to_string(), f, r.id, out);
             }
